@@ -107,6 +107,8 @@ def gen(rng, n, want_reuse, with_time=False):
             uid = rng.choice(pool)
             owner = (m.live.get(uid) or m.old.get(uid) or [0, 0])[1]
             a = rng.choice([x for x in range(1, 8) if x != owner])
+            if owner and rng.chance(1, 3):
+                a = owner + 50       # the owner's host, another source port (the harness maps n and n+50 to one IP address)
             kind = rng.choice(["pkt", "cls", "opt", "frag", "up"])
             if kind == "pkt":
                 ev.append("pkt %d %d %d 1 %d %s" % (uid, a, rng.choice([0, 0, 1, 1, 2, 3, 65535, rng.below(65536)]), rng.choice([0, 1, 2, rng.below(65536)]), hx(bytes([0xEE, 0xEF]))))
